@@ -30,9 +30,12 @@ NAME_POOL = ["a1", "ab", "cdb", "zb", "xay", "q", "g7", "ba", "g77", "cd"]
 STATUS_NAME = {0: "NOTFOUND", 1: "OK", 2: "WARN", 3: "ERR", 4: "STOP", 5: "STALL", 6: "REWIND"}
 
 
+UNSET = ("-", "@e")      # list key absent / present but empty ("" = no list)
+
+
 def rx4(mod, name):
-    a_set = mod["allow"] != "-"
-    d_set = mod["deny"] != "-"
+    a_set = mod["allow"] not in UNSET
+    d_set = mod["deny"] not in UNSET
     a_m = a_set and re.search(mod["allow"], name) is not None
     d_m = d_set and re.search(mod["deny"], name) is not None
     return "".join("1" if b else "0" for b in (a_set, a_m, d_set, d_m))
@@ -40,9 +43,9 @@ def rx4(mod, name):
 
 def lists_accept(mod, name):
     """C10's sentence: matches the allowlist if one is set and does not match the denylist if one is set."""
-    if mod["allow"] != "-" and re.search(mod["allow"], name) is None:
+    if mod["allow"] not in UNSET and re.search(mod["allow"], name) is None:
         return False
-    if mod["deny"] != "-" and re.search(mod["deny"], name) is not None:
+    if mod["deny"] not in UNSET and re.search(mod["deny"], name) is not None:
         return False
     return True
 
@@ -67,6 +70,8 @@ def _fmt_list(gs):
 
 def fmt_step(st):
     if is_resp(st):
+        if len(st) > 3:      # (dt, pair, status, "b", refresh step): the refresh arrives during the first Notify call
+            return ["b", str(st[0]), str(st[1]), str(st[2])] + [x for i, x in enumerate(fmt_step(st[4])) if i != 1]
         return ["r", str(st[0]), str(st[1]), str(st[2])]
     if st[1] == "g":
         return ["g", str(st[0]), str(st[3])] + _fmt_list(st[4])
@@ -78,7 +83,20 @@ def fmt_step(st):
     return out
 
 
+def fmt_cfg(h):
+    out = ["cfg", h["mode"], str(len(h["mods"]))]
+    for m in h["mods"]:
+        out += [m["class"], m["allow"], m["deny"], "1" if m["close"] else "0"]
+    out.append(str(len(h["names"])))
+    for n in h["names"]:
+        out.append(n)
+        out += [rx4(m, n) for m in h["mods"]]
+    return " ".join(out)
+
+
 def fmt(h):
+    if h.get("kind") == "cfg":
+        return fmt_cfg(h)
     out = [h.get("kind", KIND), str(h["t0"]), str(len(h["mods"]))]
     for m in h["mods"]:
         out += [str(m["thr"]), str(m["iv"]), "1" if m["once"] else "0", "1" if m["close"] else "0",
@@ -94,6 +112,10 @@ def fmt(h):
     for st in h["steps"]:
         out += fmt_step(st)
     return " ".join(out)
+
+
+def cfg_mod(cls, allow, deny, close):
+    return {"class": cls, "allow": allow, "deny": deny, "close": close, "thr": 2, "iv": 60, "once": False, "accg": True}
 
 
 def register_all(pairs, dt=0):
@@ -116,6 +138,17 @@ def parse(line):
     def glist():
         n = int(nx())
         return None if n < 0 else [int(nx()) for _ in range(n)]
+    if f[0] == "cfg":
+        nx()
+        h = {"kind": "cfg", "mode": nx(), "t0": T0, "mods": [], "names": [], "pairs": [], "steps": []}
+        nm = int(nx())
+        for _ in range(nm):
+            h["mods"].append(cfg_mod(nx(), nx(), nx(), nx() == "1"))
+        for _ in range(int(nx())):
+            h["names"].append(nx())
+            for _ in range(nm):
+                nx()
+        return h
     h = {"kind": nx(), "t0": int(nx()), "mods": [], "names": [], "pairs": [], "steps": []}
     nm = int(nx())
     for _ in range(nm):
@@ -142,6 +175,13 @@ def parse(line):
         elif k == "s":
             dt = int(nx())
             h["steps"].append((dt, "s", 0, glist()))
+        elif k == "b":
+            dt, p, st = int(nx()), int(nx()), int(nx())
+            if nx() == "g":
+                rst = (0, "g", 0, int(nx()), glist())
+            else:
+                rst = (0, "c", 0, [(int(nx()), glist()) for _ in range(int(nx()))])
+            h["steps"].append((dt, p, st, "b", rst))
         else:
             legacy = True
             h["steps"].append((int(k), int(nx()), int(nx())))
@@ -221,38 +261,50 @@ def analyse(h):
     open_at = {}
     seg = {}
     info = []
+
+    def refresh(st):
+        open_before = {k for k, v in open_at.items() if v is not None}
+        removed, added = L.apply(st)
+        lost = []
+        for k in sorted(removed):
+            if open_at.get(k) is not None:
+                lost.append(open_at[k])
+                open_at[k] = None
+            seg[k] = seg.get(k, 0) + 1
+        return {"removed": sorted(removed), "added": sorted(added), "lost": lost, "kept_open": sorted(open_before & L.listed)}
+
     for idx, st in enumerate(h["steps"]):
         clock += st[0]
         if not is_resp(st):
-            open_before = {k for k, v in open_at.items() if v is not None}
-            removed, added = L.apply(st)
-            lost = []
-            for k in sorted(removed):
-                if open_at.get(k) is not None:
-                    lost.append(open_at[k])
-                    open_at[k] = None
-                seg[k] = seg.get(k, 0) + 1
-            info.append({"clock": clock, "pair": None, "key": None, "status": None, "inc": None, "closing": False, "seg": None,
-                         "dropped": True, "kind": st[1], "removed": sorted(removed), "added": sorted(added), "lost": lost,
-                         "kept_open": sorted(open_before & L.listed)})
+            info.append(dict({"clock": clock, "pair": None, "key": None, "status": None, "inc": None, "closing": False, "seg": None,
+                              "dropped": True, "kind": st[1]}, **refresh(st)))
             continue
-        _, p, s = st
-        key = h["pairs"][p]
-        if s == 0 or key not in L.listed:
-            info.append({"clock": clock, "pair": p, "key": key, "status": s, "inc": None, "closing": False, "seg": None,
-                         "dropped": True, "kind": "r", "unlisted": key not in L.listed, "noentry": key[0] not in L.known})
+        if len(st) > 3:
+            # a refresh arrives while the response is being handed to the modules: it takes effect after the response
+            info += analyse_one_response(h, st, clock, L, open_at, seg, info)
+            info[-1]["then"] = dict(refresh(st[4]), step=st[4])
             continue
-        if open_at.get(key) is None and s > 1:
-            open_at[key] = len(info)
-            seg[key] = seg.get(key, 0) + 1
-        inc = open_at.get(key)
-        closing = inc is not None and s == 1
-        info.append({"clock": clock, "pair": p, "key": key, "status": s, "inc": inc, "closing": closing,
-                     "seg": (key, seg.get(key, 0)), "dropped": False, "kind": "r", "unlisted": False})
-        if closing:
-            open_at[key] = None
-            seg[key] = seg.get(key, 0) + 1
+        info += analyse_one_response(h, st, clock, L, open_at, seg, info)
     return info
+
+
+def analyse_one_response(h, st, clock, L, open_at, seg, info):
+    p, s = st[1], st[2]
+    key = h["pairs"][p]
+    if s == 0 or key not in L.listed:
+        return [{"clock": clock, "pair": p, "key": key, "status": s, "inc": None, "closing": False, "seg": None,
+                 "dropped": True, "kind": "r", "unlisted": key not in L.listed, "noentry": key[0] not in L.known}]
+    if open_at.get(key) is None and s > 1:
+        open_at[key] = len(info)
+        seg[key] = seg.get(key, 0) + 1
+    inc = open_at.get(key)
+    closing = inc is not None and s == 1
+    out = [{"clock": clock, "pair": p, "key": key, "status": s, "inc": inc, "closing": closing,
+            "seg": (key, seg.get(key, 0)), "dropped": False, "kind": "r", "unlisted": False}]
+    if closing:
+        open_at[key] = None
+        seg[key] = seg.get(key, 0) + 1
+    return out
 
 
 def incidents_per_pair(h):
@@ -276,6 +328,10 @@ def module_accepts(h, mi, key):
 def oracle_c13(h, out):
     """Property C13 evaluated on a call log.  Returns a list of failure strings (empty = holds).  An incident keeps its
     identity across every refresh that still lists the group; for an incident lost to a refresh nothing is demanded."""
+    if h.get("kind") == "cfg":
+        return []        # the construction of the module classes is judged by oracle_c14 / oracle_c10 (lists) and by the differential
+    if out.startswith("STUCK"):
+        return ["stuck: the coordinator stopped making progress - " + out]
     bad = []
     po = parse_output(out)
     info = analyse(h)
@@ -321,6 +377,10 @@ def oracle_c13(h, out):
 def oracle_c14(h, out):
     """Property C14 evaluated on a call log (interval and send-once counted within an incident / within a quiet period;
     what a module was sent is remembered across every refresh that still lists the group)."""
+    if h.get("kind") == "cfg":
+        return oracle_cfg(h, out)
+    if out.startswith("STUCK"):
+        return ["stuck: the coordinator stopped making progress - " + out]
     bad = []
     po = parse_output(out)
     info = analyse(h)
@@ -369,7 +429,49 @@ def oracle_c14(h, out):
     return bad
 
 
+def parse_cfg_output(out):
+    """-> [(class built, name, [(rx4, accept_group, handed)] per group)] per module, or None."""
+    mods = []
+    try:
+        for part in out.split(" ; "):
+            f = part.split()
+            _, cls, name = f[0].split(":")
+            rows = []
+            for tok in f[1:]:
+                r4, accg, n = tok.split("=", 1)[1].split("/")
+                rows.append((r4, accg == "1", int(n)))
+            mods.append((cls, name, rows))
+    except (ValueError, IndexError):
+        return None
+    return mods
+
+
+def oracle_cfg(h, out):
+    """C14 / C10 on the construction of the real module classes: a result for a group is handed to a module exactly when the
+    group matches the module's configured allowlist (if one is set; "" = not set) and not its denylist (if one is set) -
+    computed from the configured pattern texts - and the module's AcceptConsumerGroup agrees."""
+    po = parse_cfg_output(out)
+    if po is None or len(po) != len(h["mods"]) or any(len(m[2]) != len(h["names"]) for m in po):
+        return ["malformed output"]
+    bad = []
+    for i, (m, (cls, name, rows)) in enumerate(zip(h["mods"], po)):
+        who = "m%d (class %s, group-allowlist %s, group-denylist %s)" % (i + 1, m["class"], m["allow"], m["deny"])
+        if cls != m["class"] or name != "m%d" % (i + 1):
+            bad.append("lists: %s was built as class %s with name %s" % (who, cls, name))
+        for g, (r4, accg, n) in zip(h["names"], rows):
+            want = 1 if (lists_accept(m, g) and accg) else 0
+            if n > want:
+                bad.append("lists: %s was handed a result for group %s, which its lists reject" % (who, g))
+            elif n < want:
+                bad.append("announced: %s was not handed a result for group %s, which its lists accept" % (who, g))
+    return bad
+
+
 def oracle_c10(h, out):
+    if h.get("kind") == "cfg":
+        return oracle_cfg(h, out)
+    if out.startswith("STUCK"):
+        return []
     bad = []
     po = parse_output(out)
     info = analyse(h)
@@ -499,7 +601,34 @@ def gen_refresh(rng, kind, dt, pairs, nnames, L, target=None):
     raise ValueError(kind)
 
 
-def gen_history(rng, idx, focus="mixed", refresh=True):
+CFG_CLASSES = ["email", "http", "null"]
+
+
+def gen_cfg(rng, idx):
+    """A notifier configuration for the real Configure(): 1-4 modules, every class, list keys absent / present but empty /
+    a pattern (walked by case index so that every class meets every combination early), given to viper key by key or as a
+    TOML document; group names from the pool so that every match / no-match combination occurs."""
+    nm = rng.choice([1, 2, 3, 3, 4])
+    mods = []
+    for i in range(nm):
+        cls = CFG_CLASSES[(idx + i) % 3]
+        shape = ((idx // 3) + i * 5) % 9            # allow x deny over {absent, empty, pattern}
+        pats = [p for p in RX_POOL if p != "-"]
+        allow = ["-", "@e", None][shape % 3]
+        deny = ["-", "@e", None][shape // 3]
+        mods.append(cfg_mod(cls, rng.choice(pats) if allow is None else allow, rng.choice(pats) if deny is None else deny,
+                            rng.random() < 0.4))
+    names = rng.sample(NAME_POOL, rng.choice([2, 3, 4, 5]))
+    return {"kind": "cfg", "mode": "toml" if (idx // 2) % 2 else "set", "t0": T0, "mods": mods, "names": names, "pairs": [], "steps": []}
+
+
+def gen_history(rng, idx, focus="mixed", refresh=True, cfg=0.03):
+    if rng.random() < cfg:
+        return gen_cfg(rng, idx), ["cfg", "-", "-", "-"]
+    return gen_hist(rng, idx, focus, refresh)
+
+
+def gen_hist(rng, idx, focus="mixed", refresh=True):
     """focus: "groups" (several pairs interleaved, C13) | "clock" (one or two pairs, boundary clock steps, C14) | "mixed".
     Refresh steps are put before the first response (the registration), and - aimed at the group of the response that
     follows - between the results of an open incident, just before a closing OK, and outside incidents."""
@@ -606,13 +735,50 @@ def refresh_witnesses():
 
 
 def has_stall(h):
-    return any((not is_resp(st)) and st[1] == "s" for st in h["steps"])
+    """Histories that take real time or may block (steps "s" and "b"): run in parallel probe processes."""
+    return any((is_resp(st) and len(st) > 3) or ((not is_resp(st)) and st[1] == "s") for st in h["steps"])
+
+
+def add_blocked(rng, h):
+    """Turns one to three results into "b" steps: the first Notify call of the result is slow and a real refresh (the
+    production kind: a list that repeats every group, or a superset / whole cycle; sometimes a subset) arrives meanwhile."""
+    L = Listing()
+    idxs = []
+    for i, st in enumerate(h["steps"]):
+        if is_resp(st):
+            if st[2] > 0 and h["pairs"][st[1]] in L.listed:
+                idxs.append(i)
+        else:
+            L.apply(st)
+    if not idxs:
+        return h
+    steps = list(h["steps"])
+    for i in rng.sample(idxs, min(len(idxs), rng.choice([1, 2, 3]))):
+        st = steps[i]
+        kind = rng.choice(["all", "all", "cycle", "cycle", "superset", "subset", "dup"])
+        rst = gen_refresh(rng, kind, 0, h["pairs"], len(h["names"]), None, h["pairs"][st[1]] if rng.random() < 0.8 else None)
+        steps[i] = (st[0], st[1], st[2], "b", rst)
+    return dict(h, steps=steps)
+
+
+def blocked_witnesses():
+    """Two and three modules, an incident, and a group list / a refresh cycle arriving during the first Notify call of a
+    result; the following results (and the closing OK) must still be handled."""
+    out = []
+    for nmods in (2, 3):
+        mods = [{"thr": 2, "iv": 0, "once": False, "close": True, "accg": True, "allow": "-", "deny": "-"} for _ in range(nmods)]
+        pairs = [(1, 0), (1, 1)]
+        for rst in ((0, "g", 0, 1, [0, 1]), (0, "c", 0, [(1, [1, 0])])):
+            out.append({"kind": KIND, "t0": T0, "mods": mods, "names": ["q", "ab"], "pairs": pairs,
+                        "steps": [register_all(pairs), (SEC, 0, 3, "b", rst), (SEC, 0, 3), (SEC, 1, 3), (SEC, 0, 1), (SEC, 1, 1)]})
+    return out
 
 
 def stall_cost(h):
-    """Real seconds the probe spends in the stalled refreshes of a history (TimeoutSendStorageRequest waits 1 s per request)."""
+    """Real seconds the probe spends in the stalled refreshes of a history (TimeoutSendStorageRequest waits 1 s per request);
+    a "b" step costs next to nothing unless the coordinator gets stuck."""
     return sum((1 if st[3] is None else max(1, len(set(st[3])))) + 0.3
-               for st in h["steps"] if (not is_resp(st)) and st[1] == "s")
+               for st in h["steps"] if (not is_resp(st)) and st[1] == "s") + 0.02 * sum(1 for st in h["steps"] if is_resp(st) and len(st) > 3)
 
 
 def add_stalls(rng, h, budget=3):
@@ -677,6 +843,15 @@ def deletions(h):
     """All histories obtained by deleting one step, one module, one unused pair, or one entry of a refresh step's lists
     (the deleted step's clock step is added to its successor so that the clocks of the remaining steps do not move)."""
     out = []
+    if h.get("kind") == "cfg":
+        if len(h["mods"]) > 1:
+            out += [dict(h, mods=[m for j, m in enumerate(h["mods"]) if j != i]) for i in range(len(h["mods"]))]
+        if len(h["names"]) > 1:
+            out += [dict(h, names=[n for j, n in enumerate(h["names"]) if j != i]) for i in range(len(h["names"]))]
+        return out
+    for i, st in enumerate(h["steps"]):
+        if is_resp(st) and len(st) > 3:      # the refresh after the response instead of during it
+            out.append(dict(h, steps=h["steps"][:i] + [st[:3], st[4]] + h["steps"][i + 1:]))
     for i in range(len(h["steps"])):
         st = list(h["steps"])
         dt = st[i][0]
@@ -692,7 +867,7 @@ def deletions(h):
         if p not in used and len(h["pairs"]) > 1:
             ren = {q: (q if q < p else q - 1) for q in range(len(h["pairs"]))}
             out.append(dict(h, pairs=[x for j, x in enumerate(h["pairs"]) if j != p],
-                            steps=[(st[0], ren[st[1]], st[2]) if is_resp(st) else st for st in h["steps"]]))
+                            steps=[((st[0], ren[st[1]]) + tuple(st[2:])) if is_resp(st) else st for st in h["steps"]]))
     for i, st in enumerate(h["steps"]):
         if is_resp(st):
             continue
@@ -781,6 +956,8 @@ def run_impl(chk, hs, name):
 def shrink(chk, h, out, oracle, rules, budget=80):
     """Deletes steps / modules while the oracle still reports one of `rules` on the implementation's output."""
     rounds = 0
+    if "stuck" in rules:
+        budget = min(budget, 10)     # every stuck candidate costs the probe its real-time deadline
     while rounds < budget:
         rounds += 1
         cands = deletions(h)
@@ -799,6 +976,13 @@ def shrink(chk, h, out, oracle, rules, budget=80):
 
 
 def describe(h):
+    if h.get("kind") == "cfg":
+        return {"configuration": "given to viper %s" % ("as a TOML document" if h["mode"] == "toml" else "key by key (viper.Set)"),
+                "modules": ["m%d class-name=%s group-allowlist=%s group-denylist=%s send-close=%d" % (
+                    i + 1, m["class"], {"-": "(key absent)", "@e": '""'}.get(m["allow"], m["allow"]),
+                    {"-": "(key absent)", "@e": '""'}.get(m["deny"], m["deny"]), m["close"]) for i, m in enumerate(h["mods"])],
+                "events": ["an ERR result for group %s: handed to %s" % (n, ", ".join("m%d" % (i + 1) for i, m in enumerate(h["mods"]) if lists_accept(m, n)) or "no module")
+                           for n in h["names"]]}
     info = analyse(h)
 
     def gl(gs):
@@ -812,6 +996,11 @@ def describe(h):
                 note = "  (dropped: the group is not on the notifier's list)"
             elif st["inc"] is not None:
                 note = "  (incident opened at step %d%s)" % (st["inc"], ", closing OK" if st["closing"] else "")
+            if "then" in st:
+                r2 = st["then"]["step"]
+                note += "  [the first Notify call is slow; meanwhile arrives a %s]" % (
+                    "group list for c%d: %s" % (r2[3], gl(r2[4])) if r2[1] == "g" else
+                    "refresh cycle: clusters [%s]" % ", ".join("c%d: %s" % (cl, gl(gs)) for cl, gs in r2[3]))
             ev.append(t + "result c%d/%s %s%s" % (st["key"][0], h["names"][st["key"][1]], STATUS_NAME.get(st["status"], st["status"]), note))
         else:
             if st["kind"] == "g":
@@ -843,6 +1032,9 @@ def count_refreshes(chk, h):
     nref = 0
     for i, (st, raw) in enumerate(zip(info, h["steps"])):
         if st["kind"] == "r":
+            if "then" in st:
+                chk.count("slow-module:refresh(%s)-during-the-first-Notify-call%s" % (
+                    {"g": "group-list", "c": "cycle"}[st["then"]["step"][1]], ",incident-open" if st["inc"] is not None else ""))
             if st["dropped"] and st.get("noentry"):
                 chk.count("result:for-a-cluster-without-entry(model only; the probe does not run it)")
             elif st["dropped"] and st.get("unlisted") and st["status"] != 0:
@@ -882,7 +1074,8 @@ def count_refreshes(chk, h):
         chk.count("incident-opened-after-relisting")
 
 
-def check_body(chk, failed, pid, oracle, focus_weights, n_quick, n_thorough, corr_name, n_stall_quick=36, n_stall_thorough=400):
+def check_body(chk, failed, pid, oracle, focus_weights, n_quick, n_thorough, corr_name, n_stall_quick=36, n_stall_thorough=400,
+               n_block_quick=240, n_block_thorough=4000):
     import common as C
     n = n_thorough if chk.thorough else n_quick
     hs, tags = [], []
@@ -910,9 +1103,19 @@ def check_body(chk, failed, pid, oracle, focus_weights, n_quick, n_thorough, cor
         hs_s.append(h)
         tags_s.append(["stall-witness", "-", "-", "-"])
     for i in range(n_stall_thorough if chk.thorough else n_stall_quick):
-        h, tg = gen_history(chk.rng, i, chk.rng.choice(focus_weights))
+        h, tg = gen_hist(chk.rng, i, chk.rng.choice(focus_weights))
         hs_s.append(add_stalls(chk.rng, h))
         tags_s.append(tg)
+    # histories with a slow module during whose Notify call a real refresh arrives (each wait has a deadline: STUCK)
+    for h in blocked_witnesses():
+        hs_s.append(h)
+        tags_s.append(["slow-module-witness", "-", "-", "-"])
+    for i in range(n_block_thorough if chk.thorough else n_block_quick):
+        h, tg = gen_hist(chk.rng, i, chk.rng.choice(focus_weights))
+        h = add_blocked(chk.rng, h)
+        if has_stall(h):
+            hs_s.append(h)
+            tags_s.append(tg)
     if hs_s:
         cases_s = [fmt(h) for h in hs_s]
         impl_s = run_impl_parallel(chk, hs_s, "stall")
@@ -921,7 +1124,8 @@ def check_body(chk, failed, pid, oracle, focus_weights, n_quick, n_thorough, cor
         mism += [(off + i, c, a, b) for i, (c, a, b) in enumerate(zip(cases_s, impl_s, model_s)) if a != b]
         chk.evaluations += len(cases_s)
         chk.traces_validated += len(cases_s)
-        chk.count("histories-with-a-timed-out-storage-request", len(hs_s))
+        chk.count("histories-with-a-timed-out-storage-request", sum(1 for h in hs_s if any((not is_resp(st)) and st[1] == "s" for st in h["steps"])))
+        chk.count("histories-with-a-slow-module-and-a-concurrent-refresh", sum(1 for h in hs_s if any(is_resp(st) and len(st) > 3 for st in h["steps"])))
         hs, tags, cases, impl, model = hs + hs_s, tags + tags_s, cases + cases_s, impl + impl_s, model + model_s
 
     for h, c, tg in zip(hs, cases, tags):
@@ -935,6 +1139,11 @@ def check_body(chk, failed, pid, oracle, focus_weights, n_quick, n_thorough, cor
         chk.count("modules:%d" % len(h["mods"]))
         chk.count("pairs:%d" % len(h["pairs"]))
         chk.count("max-incidents-per-group:%s" % min(max(inc.values()) if inc else 0, 5))
+        if h.get("kind") == "cfg":
+            chk.count("cfg:mode=%s" % h["mode"])
+            for m in h["mods"]:
+                chk.count("cfg:class=%s,allow=%s,deny=%s" % (m["class"], {"-": "absent", "@e": "empty"}.get(m["allow"], "pattern"),
+                                                             {"-": "absent", "@e": "empty"}.get(m["deny"], "pattern")))
         nresp = sum(1 for st in h["steps"] if is_resp(st))
         chk.count("results:%s" % ("0" if nresp == 0 else "1-5" if nresp <= 5 else "6-12" if nresp <= 12 else "13-30"))
         count_refreshes(chk, h)
